@@ -16,6 +16,7 @@ CONSTANTS
  NTags = 1
  MaxReserve = 0
  PinAlloc = FALSE
+ MinCap = 0
 INIT TraceInit
 NEXT TraceNext
 POSTCONDITION Consumed
